@@ -317,7 +317,7 @@ where
     H: Host,
     A: LoadableAsset + SeekableAsset,
 {
-    let _ = asset.seek(SeekFrom::End(0))?;
+    let file_size = asset.seek(SeekFrom::End(0))?;
     let mut cursor_pos = 0;
     asset.seek(SeekFrom::Start(0))?;
 
@@ -367,11 +367,18 @@ where
             block_header[2],
             block_header[3],
         ];
-        let id_str = from_utf8(id_bytes).unwrap().to_uppercase();
+        let id_str = match from_utf8(id_bytes) {
+            Ok(id) => id.to_uppercase(),
+            Err(_) => return Err(SnapshotLoadError::InvalidSZXFile.into()),
+        };
         cursor_pos += ZXST_BLOCK_HEADER_SIZE;
 
         // ZXST Block Data
         asset.seek(SeekFrom::Start(cursor_pos))?;
+        // Block can't be bigger than the rest of the file
+        if size as usize > file_size.saturating_sub(cursor_pos) {
+            return Err(SnapshotLoadError::InvalidSZXFile.into());
+        }
         let mut block_data = vec![0; size as usize];
 
         if asset.read_exact(&mut block_data).is_err() {
